@@ -353,12 +353,13 @@ impl Display for Number {
 }
 
 impl Number {
-    pub fn value(&self) -> i64 {
+    /// The value of the literal; `None` when it does not fit in 64 bits
+    pub fn value(&self) -> Option<i64> {
         // The parser accepts these keywords in any letter case
         match self.data.to_lowercase().as_str() {
-            "true" => 1,
-            "false" => 0,
-            _ => i64::from_str_radix(&self.data, self.radix).ok().unwrap(),
+            "true" => Some(1),
+            "false" => Some(0),
+            _ => i64::from_str_radix(&self.data, self.radix).ok(),
         }
     }
 
